@@ -85,7 +85,7 @@ def _loader_case(cfg, M, kw, tmpl, box, lim, rng):
     import polars as pl
     from acryo import Molecules, SubtomogramLoader
 
-    scale = 0.5 if cfg["driver"] == "loader_nm" else 1.0
+    scale = {"loader_nm": 0.5, "loader_list_nm": 0.5, "loader_list_coarse": 2.0}.get(cfg["driver"], 1.0)
     n = 3
     tomo = (0.1 * rng.normal(size=(28, 28, 20 * n + 10))).astype(np.float32)
     pos_px = np.array([[14, 14, 14 + 20 * i] for i in range(n)], dtype=np.float64)
@@ -104,6 +104,10 @@ def _loader_case(cfg, M, kw, tmpl, box, lim, rng):
         loader.align(tmpl, max_shifts=ms, alignment_model=M, **kw)
     elif drv == "loader_multi":
         loader.align_multi_templates([tmpl, tmpl[::-1].copy()], max_shifts=ms, alignment_model=M, **kw)
+    elif drv in ("loader_list_nm", "loader_list_coarse"):
+        # a list / stack of templates given to align() itself (it dispatches to the multi-template path)
+        tl = [tmpl, tmpl[::-1].copy()]
+        loader.align(tl if drv == "loader_list_nm" else np.stack(tl, axis=0), max_shifts=ms, alignment_model=M, **kw)
     elif drv == "group":
         res = loader.groupby("g").align(tmpl, max_shifts=ms, alignment_model=M, **kw)
         list(res)
@@ -143,7 +147,7 @@ def judge_events(rep, events, descr, tag):
         for i, e in enumerate(chunk, start=1):
             fails = [descr(e, w) for w in badmap[i]["why"]] if i in badmap else []
             key = (e["kind"], e.get("model"), e.get("max_shifts"), e.get("shift"), e.get("tag"), e.get("test"), e.get("seq"))
-            rep.record({k: e[k] for k in e if k not in ("rows",)} if e["kind"] == "AlignReturn" else dict(kind=e["kind"], n=e.get("n")),
+            rep.record({k: e[k] for k in e if k not in ("rows",)} if e["kind"] == "AlignReturn" else dict(kind=e["kind"], fn=e.get("fn"), n=e.get("n", len(e.get("rows", [])))),
                        fails, nontrivial_key=key)
             rep.count(e["kind"])
 
@@ -195,7 +199,7 @@ def run(rep: engine.Report, tier: str, seed: int):
             g = c["cfg"]
             rep.record(g, [dict(clause="NoRaise", kind="Driver", model=g["model"], data=g["data"], driver=g["driver"], rot=g["rot"], lim=g["lim"],
                                 min_lim_milli=min(g["lim"]) * 10, error=o["err"])], nontrivial_key=("driver", g))
-    judge_events(rep, [e for e in events if e["kind"] in ("AlignReturn", "PostAlign")], _descr_factory(by_tag), "c05")
+    judge_events(rep, [e for e in events if e["kind"] in ("AlignReturn", "PostAlign", "LoaderAlign")], _descr_factory(by_tag), "c05")
     rec_err = [e for e in events if e["kind"] == "RecorderError"]
     if rec_err:
         rep.notes.append(f"recorder errors: {rec_err[:3]}")
@@ -240,7 +244,7 @@ def record_repo_tests(rep) -> list[dict]:
         with open(path) as fh:
             ev = [json.loads(l) for l in fh if l.strip()]
         path.unlink()
-    return [e for e in ev if e["kind"] in ("AlignReturn", "PostAlign")]
+    return [e for e in ev if e["kind"] in ("AlignReturn", "PostAlign", "LoaderAlign")]
 
 
 def replay_file(path: str) -> int:
